@@ -30,7 +30,7 @@ def run_spec(spec, cap=20000, wall=30, fault=None, sim_class=None):
         N, skw = gen.build(spec, logs, fault=fault)
         ciw.seed(spec['seed'])
         Q = (sim_class or mon.MonSim)(N, **skw)
-        Q.attach(tr, cap=cap, tie_policy=spec.get('tie', 'native'), tie_seed=spec['seed'])
+        Q.attach(tr, cap=cap, tie_policy=spec.get('tie', 'native'), tie_seed=spec['seed'], tie_script=spec.get('tie_script'))
         run = spec['run']
         if run['method'] == 'time':
             Q.simulate_until_max_time(run['T'])
@@ -167,7 +167,8 @@ def evaluate(spec, props, cap=20000, wall=30):
         if (p, code) in seen: continue
         seen.add((p, code))
         viol.append((p, code, _short(det)))
-    return dict(seed=spec['seed'], status=status, crash=crash, taint=(cut['finding'] if cut else None), soft=sorted(cx['soft']),
+    tie_trace = list(getattr(Q, '_tie_trace', [])) if Q is not None else []
+    return dict(seed=spec['seed'], tie_trace=tie_trace, status=status, crash=crash, taint=(cut['finding'] if cut else None), soft=sorted(cx['soft']),
                 taint_detail=(cut.get('detail') if cut else None),
                 events_total=n_events_total, events_judged=kinds.get('EVENT', 0), kinds=kinds, evtypes=evtypes,
                 counters=tr.counters, ties=tr.ties, ind_ties=tr.ind_ties, tie_choices=len(tr.tie_choices),
